@@ -12,7 +12,7 @@ META = dict(
               "through C04_step_refines; + differential execution of the extracted collection model (run on the extracted storage model: exact record bytes and indexes) against the real collections "
               "through the cfg(agdb_verif) wrappers of hook H4; (L3) the whole database file as a relation over the record map assembled from the L2 invariants, an executable loader proved to return the represented database, "
               "run (extracted) on the raw records of real database files and compared with the reopened database; + maintenance operations executed at random points of generated query histories with ordered full dumps before/after",
-    level_text="PARTIAL (L3 is proved for RELOAD and MAINTENANCE of a stored database; that every DbImpl mutation keeps the database stored is not). Machine-checked (coq/Props/C05.v, every theorem closed under the global context): "
+    level_text="PARTIAL (L3 is proved for RELOAD and MAINTENANCE of a stored database, and — round 5 — that a CORE of DbImpl mutations keeps the database stored: insert_node, insert_edge, reserve_key_value_capacity, insert_key_value and insert_or_replace_key_value on keys without an index; for aliases, indexes, removals, transactions + undo it is not). Machine-checked (coq/Props/C05.v, every theorem closed under the global context): "
                "L3, the whole database in the record store (theories/StoredDb*.v): stored_db g root d — the representation relation assembled from the L2 predicates: root record DbStorageIndex (version 1, six u64) -> "
                "graph (index record + four DbVec<i64> = exactly the four arrays), aliases (two DbMapData tables holding k2v / v2k as multisets, keys distinct), indexes (DbVec of 24-byte entries: value index of the key "
                "(C12) ++ index of a DbMapData<DbValue,DbId>, same order as the model, ids as a multiset), values (DbVec<StorageIndex>, one slot per element slot, 0 or a DbVec<DbKeyValue> holding exactly the property "
@@ -24,8 +24,8 @@ META = dict(
                "searches, select indexes / node_count, every search except algorithm Index; excluded exactly SelectAllAliases and the Index search) returns on the database loaded after the maintenance operation EXACTLY "
                "the result it returns on d (ids, order, properties, aliases); C05_db_stored_depends_on_map_only; non-vacuity C05_db_sample: a database (2 nodes, 1 edge, alias, inline and out-of-line values, an index) "
                "created by the collection programs on the storage model satisfies stored_db for the database three queries produce, load_db returns exactly it, also after optimize / reopen / backup and on the "
-               "memory-like storage. MISSING LINK (named in Props/C05.v, not proved): C05_db_operations_preserve_stored_db — that each DbImpl mutation (db.rs over graph.rs / multi_map.rs / db_key_value.rs / db_index.rs "
-               "on the storage) leaves a storage state representing the DbModel result, i.e. that stored_db holds after every history of queries; checked on every run by correspondence (c) below. Its SHAPE is carried out for one component: "
+               "memory-like storage. CORE MUTATIONS (theories/StoredDbOps*.v): DbImpl::insert_node / insert_edge (graph.rs GraphImpl over GraphDataStorage: transaction, get_free_index = free-list pop or grow, set_edge, node count, validate_node), reserve_key_value_capacity / insert_key_value / insert_or_replace_key_value (db_key_value.rs DbKeyValues over the slot vector and the elements' DbVec<DbKeyValue>: resize of the slot vector, allocation of a property vector for an element without properties, value indexes of C12, lazy search + replace in place or reserve + push) modelled as PROGRAMS over the storage that branch on the storage's answers; C05_db_insert_node_preserves_stored_db, C05_db_insert_edge_preserves_stored_db, C05_db_reserve_key_value_capacity_preserves_stored_db, C05_db_insert_key_value_preserves_stored_db, C05_db_insert_or_replace_key_value_preserves_stored_db: in every state of the abstract record map holding d (stored_db_w) with DbImpl's handles those of the witness (C05_db_open_handles: so_open = from_storage), under EXPLICIT side conditions (so_graph_ok: arrays of one length < 2^60, free-list head i64::MIN or in range, node count in [0, 2^63-1); so_edge_ok: the two degree counters stay i64; |id| < 2^60; u64 sizes; values wf_value; the key(s) NOT indexed), for every answer sequence the record map allows the program does not die, returns DbModel's result (same id / replaced pair) and ends in a state holding DbModel's database, the witness changed in the operated component only and the change confined to the footprint (frame), same transaction depth; C05_db_core_histories_preserve_stored_db: EVERY history of the five; C05_db_core_operations_preserve_stored_db_partial: the same on the MODEL of storage.rs (C04, file-like and memory-like) from any state refining a map that holds d: so_open then the history dies by a storage panic or returns DbModel's outputs in a state refining a map that holds DbModel's final database; non-vacuity C05_db_sample_core_operations: on the example database, so_open; insert_node; reserve; insert_key_value (out-of-line value) RUN on the storage model, every answer replayed on the abstract map, so the theorems apply to that run: id 4, the final record store satisfies stored_db for DbModel's result and load_db returns exactly it. graph.rs REMOVALS, graph component only: C05_db_remove_edge_graph_preserves_stored_db (GraphImpl::remove_edge in full — validate_edge, remove_from_edge / remove_to_edge with the head case and the while walk to the predecessor on fuel = capacity, free_index — under so_remove_edge_ok: visited slots inside the arrays, walks end within capacity rounds, decremented counters stay i64), C05_db_remove_isolated_node_graph_preserves_stored_db (GraphImpl::remove_node for a node WITHOUT edges; the cascade over its edges is modelled but not proved), non-vacuity C05_db_sample_remove_edge; C05_db_query_remove_edge_preserves_stored_db: the PUBLIC removal of an edge (so_q_remove = DbImpl::remove_id on an edge id inside transaction_mut's storage transaction: graph.remove_edge + remove_all_values = DbKeyValues::remove — the element's vector and every out-of-line record of its pairs freed, the slot vector popped when it was the last slot, else the slot set to 0; keys not indexed; the element has a property vector: so_slot_valid, a condition on the file that every element inserted through the public API satisfies) keeps the database stored and computes DbModel's remove_all_values (remove_edge_db d e); C05_db_query_insert_node_preserves_stored_db / C05_db_query_insert_values_preserves_stored_db: the very programs the correspondence run (d) executes (so_q_insert_node, so_q_insert_values: the core operations as the public queries issue them inside one storage transaction) keep the database stored and compute the composition of DbModel's functions; C05_db_graph_side_condition_from_wf: so_graph_ok follows from C08's wf and capacity < 2^60 (so_edge_ok / so_remove_edge_ok are not linked to wf). C05_db_query_remove_isolated_node_preserves_stored_db: the same for the public removal of a NODE without edges and without alias (DbModel's remove_node_db d n None succeeds and the final store holds remove_all_values of its result). The removal of a node's alias and the cascade over its edges are not covered. Of the side conditions only so_graph_ok is proved of every well-formed graph; the others are stated explicitly. MISSING LINK for the rest (named in Props/C05.v, not proved): C05_db_operations_preserve_stored_db — that each DbImpl mutation (db.rs over graph.rs / multi_map.rs / db_key_value.rs / db_index.rs "
+               "on the storage) leaves a storage state representing the DbModel result, i.e. that stored_db holds after every history of queries — open for insert_alias / insert_new_alias / remove_alias (multi_map.rs over the alias tables: needs C19's PInv in the relation), insert_index / remove_index and every index update for an indexed key, DbImpl's remove_edge / remove_node beyond the graph part (cascade over a node's edges, properties, alias), remove_keys / remove_all_values, transactions + undo, shrink_to_fit; checked on every run by correspondence (c) and (d) below. Its SHAPE is carried out for one component: "
                "C05_db_graph_histories_preserve_stored_db_partial — EVERY history of the GraphData interface (the interface graph.rs is written against) run on the graph of a stored database leaves a stored database whose graph arrays "
                "are the plain arrays' result and whose aliases, indexes and values are unchanged, the change confined to the database's footprint (from C05_graph_history, the pairwise distinct footprints and C05_db_footprint_live); "
                "C05_db_alias_lookups_by_probing — the link to C19: on stored alias tables satisfying the invariant C19 proves of every reachable table, for every hash function, the code's PROBING lookups (MapImpl::value) return exactly "
@@ -58,11 +58,11 @@ META = dict(
                "side by side with the in-memory database and the extracted database model; (c) stored database: generated histories through the public API on a DbFile (transactions with injected failures, maintenance "
                "inside the history); the closed file, the optimized file and a backup are read RAW with the storage layer only (VStorage<FileStorage>: index -> bytes of every live record) and given to the extracted load_db; "
                "the full ordered dump of the loaded model database must equal, as a line, the dump of the same file reopened as a real database (class stored-db-mismatch), which must equal the dump before the drop "
-               "(stored-reopen-differs). The *_guarded theorems state the L1 results for the recovery with the position check of apply_wal_record (model recover_g, fix 826414a): "
+               "(stored-reopen-differs); (d) core mutations as storage programs (hx_core ops, extract/m_ops.ml): on real database files after generated histories (removals included, so the free list is non-empty; some with an index on an unused key), the file IMAGE is opened by the extracted storage model (its live records must equal the raw records of the real file: stored-ops-open-mismatch), the extracted programs so_open 1 ;; so_q_insert_node / so_q_insert_values / so_q_insert_edge / so_q_remove (remove ids: an edge — head or not of its two lists — or a node without edges and alias; the element's property vector and out-of-line records freed) (the core operations as the public queries insert nodes values / insert values ids / insert edges issue them inside transaction_mut's storage transaction) are run on it, and the resulting record map index -> bytes must equal EXACTLY (record indexes in allocation order, spare-capacity bytes, out-of-line value records, returned id; nothing normalised) the raw records of the real file after the real database, reopened from that file, executed the same query (stored-ops-mismatch). The *_guarded theorems state the L1 results for the recovery with the position check of apply_wal_record (model recover_g, fix 826414a): "
                "on logs the storage wrote the check never fires (C01_guarded_recovery_agrees).",
     design_ref="DESIGN.md §5 C05",
     level_note="Trusted: Coq kernel, extraction, OCaml driver, Rust harness (its generators and shadow structures), hook H4 (delegating wrappers, add-only, cfg(agdb_verif)). The storage model is tied to storage.rs by "
-               "the C04 correspondence, the collection model to vec.rs / map.rs / graph.rs by the exact byte-level correspondence of this check, the loader load_db to DbImpl::new + complete reads by correspondence (c) on real files. DbMemory 'reopen' = backup to a file + open.",
+               "the C04 correspondence, the collection model to vec.rs / map.rs / graph.rs by the exact byte-level correspondence of this check, the loader load_db to DbImpl::new + complete reads by correspondence (c) on real files, the core-mutation programs of StoredDbOps.v to db.rs / graph.rs / db_key_value.rs by correspondence (d) (exact record bytes). DbMemory 'reopen' = backup to a file + open.",
 )
 
 WRAPPER = "vdbvec!(VDbVecU64"         # hook H4 (fixes/H4-dbvec-wrapper.diff) in agdb/src/verif.rs
@@ -144,6 +144,76 @@ def run_stored(ctx):
                 histories=dist.get("histories", 0), records=dist.get("records", 0))
 
 
+def _ops_parts(line):
+    """pre=[i:bytes ...] ret=<...> post=[i:bytes ...]  ->  (pre map, ret, post map) or None"""
+    try:
+        a = line.index("pre=[") + 5
+        b = line.index("] ret=", a)
+        c = line.index(" post=[", b)
+        pre = dict(x.split(":", 1) for x in line[a:b].split())
+        post = dict(x.split(":", 1) for x in line[c + 7:line.rindex("]")].split())
+        return pre, line[b + 6:c], post
+    except ValueError:
+        return None
+
+
+def _ops_map_diff(m, x, limit=6):
+    out = []
+    for k in sorted(set(m) | set(x), key=lambda h: int(h, 16)):
+        if m.get(k) != x.get(k):
+            out.append("record %s: model=%s impl=%s" % (k, m.get(k, "<absent>"), x.get(k, "<absent>")))
+    return "; ".join(out[:limit]) + (" ; ... %d records differ" % len(out) if len(out) > limit else "")
+
+
+def run_ops(ctx):
+    """database level (L3): the core mutations as storage programs (StoredDbOps.v: so_open ;; so_q_insert_node / so_q_insert_values /
+    so_q_insert_edge / so_q_remove, run by cp_run on the extracted model of storage.rs opened on the IMAGE of a real file) vs the raw records of
+    the real file after the same query of the public API"""
+    exe, dlog = vlib.build_driver()
+    if exe is None:
+        raise RuntimeError("driver build failed: " + dlog)
+    tdir, blog = vlib.cargo_build("hx_core", "release", features=["h4_dbvec"] if wrapper_present() else None)
+    if tdir is None:
+        raise RuntimeError("harness build failed: " + blog)
+    w = os.path.join(ctx.workdir, "ops")
+    os.makedirs(w, exist_ok=True)
+    n, steps = (150, 25) if ctx.tier == "quick" else (2500, 40)
+    rc, out = vlib.sh([os.path.join(tdir, "hx_core"), "ops", "--seed", str(ctx.seed + 606), "--n", str(n), "--steps", str(steps), "--out", w], timeout=6000)
+    if rc != 0:
+        raise RuntimeError("ops harness failed: " + out[-2000:])
+    rc, err = run_driver(exe, os.path.join(w, "cases.txt"), os.path.join(w, "model.txt"), timeout=6000)
+    cases, model, impl, hist = (read_lines(os.path.join(w, f)) for f in ("cases.txt", "model.txt", "impl.txt", "hist.txt"))
+    dis = []
+    mismatches = 0
+    for i, c in enumerate(cases):
+        m = model[i] if i < len(model) else "<missing>"
+        x = impl[i] if i < len(impl) else "<missing>"
+        if m == x:
+            continue
+        mismatches += 1
+        if len(dis) >= 8:
+            continue
+        h = hist[i] if i < len(hist) else ""
+        pm, px = _ops_parts(m), _ops_parts(x)
+        if pm is None or px is None:
+            cls, detail = ("stored-ops-open-mismatch", "the storage model could not open the file image") if m == "open-failed" else ("stored-ops-mismatch", "model line: " + m[:300])
+        elif pm[0] != px[0]:
+            cls, detail = "stored-ops-open-mismatch", "live records of the storage model after opening the file image differ from the raw records of the real file: " + _ops_map_diff(pm[0], px[0])
+        else:
+            cls = "stored-ops-mismatch"
+            detail = ("result: model=%s impl=%s; " % (pm[1], px[1]) if pm[1] != px[1] else "result %s agrees; " % pm[1]) + "records after the operation: " + (_ops_map_diff(pm[2], px[2]) or "equal")
+        dis.append(dict(what="stored-database operation, case %d: the storage program of StoredDbOps.v on the image of the real file differs from what the real query wrote: %s (operation %s)"
+                             % (i, detail[:3000], h[:3000]),
+                        case=c[:3000], model=m[:6000], impl=x[:6000], history=h[:6000], cls=cls))
+    failures = [dict(cls=l.split(" ")[0], what=l[:6000]) for l in read_lines(os.path.join(w, "oracle.txt"))]
+    # a disagreement of the storage programs with a real file is a failure of the property's proof chain with a concrete input
+    failures += [dict(cls=d["cls"], what=d["what"][:6000]) for d in dis]
+    dist, ev, nt, samples = merge_stats([os.path.join(w, "stats.json")])
+    dist["lines-identical"] = len(cases) - mismatches
+    return dict(cases=len(cases), disagreements=dis, failures=failures, dist=dist, nontrivial=nt, samples=samples, mismatches=mismatches,
+                histories=dist.get("histories", 0), records=dist.get("records", 0), file_bytes=dist.get("file_bytes", 0))
+
+
 def run(ctx):
     notes = []
     co = None
@@ -158,6 +228,11 @@ def run(ctx):
         sto = run_stored(ctx)
     else:
         notes.append("database-level correspondence (extracted load_db on the raw records of real files) SKIPPED: agdb::verif::VStorage is not in %s" % vlib.REPO)
+    ops = None
+    if vstorage_present():
+        ops = run_ops(ctx)
+    else:
+        notes.append("stored-database operations (StoredDbOps.v programs on the image of real files) SKIPPED: agdb::verif::VStorage is not in %s" % vlib.REPO)
     n, steps = (50, 30) if ctx.tier == "quick" else (1200, 60)
     r = run_db(ctx, "all", n, steps, variants="file,mapped,any_file,any_mapped", maintenance=True)
     # index-heavy histories as well: several indexes created and removed in varying order before the maintenance operation
@@ -204,6 +279,36 @@ def run(ctx):
                 % (sto["histories"], sto["records"], sto["cases"])) + rule
         notes.append("stored-database correspondence: %d files loaded by the extracted load_db, %d disagreements, %d oracle failures"
                      % (sto["cases"], len(sto["disagreements"]), len([f for f in sto["failures"] if f["cls"] != "stored-db-mismatch"])))
+    if ops is not None:
+        failures = ops["failures"] + failures
+        disagreements = ops["disagreements"] + disagreements
+        evaluations += ops["cases"]
+        nontrivial += ops["nontrivial"]
+        samples = ops["samples"][:2] + samples
+        dist.update({"ops:" + k: v for k, v in ops["dist"].items()})
+        d = ops["dist"]
+        rule = ("stored-database operations (L3, the core mutations as storage programs): %d generated histories of mutating queries and transactions through the public API on a DbFile (removals, so that the "
+                "graph's free list is non-empty in part of the cases; optimize_storage / shrink_to_fit / drop+reopen at random points; no index on any key the case uses), the database dropped; then 1-3 chained "
+                "cases per file (%d cases: %d insert-node, %d insert-values, %d insert-edge, %d remove): PRE = the bytes of the closed file; the file is reopened as a real database (DbFile::new, handles rebuilt by "
+                "from_storage), ONE query of the public API runs — QueryBuilder::insert().nodes().values([l]) / insert().values([l]).ids(existing id) / insert().edges().from(f).to(t) (1 in 10 with an endpoint that is not a node: the query must fail where the program answers None, and no record may change) / remove().ids(id) where id is an existing EDGE (half of the histories end with a fan of edges, so the edge is often not the head of its source's out-list / its target's in-list and the code walks to the predecessor) or an existing NODE without outgoing / incoming edges and without alias (the restrictions of so_q_remove: no cascade, no alias table access), with or without properties (out-of-line records must be freed), l = 0-4 pairs with inline "
+                "and out-of-line keys and values — and the database is dropped; POST = every live record read RAW through the storage layer only (VStorage<FileStorage>, %d records in all). The extracted "
+                "model of storage.rs OPENS THE FILE IMAGE (Storage.with_data on the %d file bytes, as FileStorage::new does), its live records must equal the raw records of the real file before the "
+                "operation (class stored-ops-open-mismatch), then cp_run (st_step ops_file) executes `h <~ so_open 1 ;; so_q_insert_node h l | so_q_insert_values h id l | so_q_insert_edge h f t | so_q_remove h id` of "
+                "StoredDbOps.v and the line `every live record index:bytes before, returned id, every live record index:bytes after` must be IDENTICAL to the implementation's (EXACT comparison: record "
+                "indexes in allocation order, spare-capacity bytes of every vector record, out-of-line value records, the returned node / edge id; nothing is normalised; class stored-ops-mismatch); "
+                "non-trivial = a case that pops the free list, writes an out-of-line value, replaces an existing pair, inserts an edge or removes an element. "
+                % (ops["histories"], ops["cases"], d.get("kind:insert_node", 0), d.get("kind:insert_values", 0), d.get("kind:insert_edge", 0), d.get("kind:remove", 0), ops["records"], ops["file_bytes"])) + rule
+        notes.append("stored-database operations: %d cases (insert-node %d: %d new slot / %d free-list pop; insert-edge %d: %d new slot / %d free-list pop / %d rejected because an endpoint is not a node; insert-values %d: %d pairs replaced, %d pairs appended, "
+                     "%d on an element without properties; remove %d: %d edges (%d not the head of the source's out-list, %d not the head of the target's in-list) / %d nodes without edges and alias, %d elements with properties, %d out-of-line keys/values freed; %d out-of-line keys/values written), %d lines identical to the model's byte for byte, %d disagreements, %d oracle failures"
+                     % (ops["cases"], d.get("kind:insert_node", 0), d.get("insert_node:new-slot(grow)", 0), d.get("insert_node:free-list-pop", 0),
+                        d.get("kind:insert_edge", 0), d.get("insert_edge:new-slot(grow)", 0), d.get("insert_edge:free-list-pop", 0), d.get("insert_edge:endpoint-not-a-node", 0),
+                        d.get("kind:insert_values", 0), d.get("insert_values:pairs-replaced(replace branch)", 0), d.get("insert_values:pairs-appended(push branch)", 0),
+                        d.get("insert_values:element-without-properties", 0),
+                        d.get("kind:remove", 0), d.get("remove:target=edge", 0), d.get("remove:edge:NOT-head-of-the-source's-out-list(walk)", 0), d.get("remove:edge:NOT-head-of-the-target's-in-list(walk)", 0),
+                        d.get("remove:target=node-without-edges-and-alias", 0), d.get("remove:element-with-properties", 0), d.get("remove:out-of-line keys/values freed (estimated)", 0),
+                        d.get("out-of-line keys/values written (estimated)", 0),
+                        ops["cases"] - ops["mismatches"], ops["mismatches"],
+                        len([f for f in ops["failures"] if not f["cls"].startswith("stored-ops-")])))
     return dict(
         evaluations=evaluations, distinct_nontrivial=nontrivial, samples=samples, dist=dist, rule=rule,
         failures=failures, disagreements=disagreements,
